@@ -386,3 +386,76 @@ func VerifPosition(alg string, source graph.Source, layers map[string]int, sizes
 	after = x.snap("after", 0, G)
 	return before, after
 }
+
+// VerifRoute is VerifPosition followed by one routing algorithm (phase 5) on the positioned graph.
+// route: "straight" | "polyline" | "ortho".
+func VerifRoute(alg, route string, source graph.Source, layers map[string]int, sizes map[string][2]float64, virtual map[string]bool,
+	nodeSpacing, layerSpacing float64, bk int) (before, after VerifSnap) {
+	G := from(source)
+	size := 0
+	for _, n := range G.Nodes {
+		n.Layer = layers[n.ID]
+		n.IsVirtual = virtual[n.ID]
+		n.W, n.H = sizes[n.ID][0], sizes[n.ID][1]
+		size = max(size, n.Layer+1)
+	}
+	G.Layers = make([]*ig.Layer, size)
+	for i := range G.Layers {
+		G.Layers[i] = &ig.Layer{Index: i}
+	}
+	for _, n := range G.Nodes {
+		l := G.Layers[n.Layer]
+		n.LayerPos = len(l.Nodes)
+		l.Nodes = append(l.Nodes, n)
+	}
+	x := &verifIndex{nidx: map[*ig.Node]int{}, eidx: map[*ig.Edge]int{}}
+	before = x.snap("before", 0, G)
+	params := defaultOptions.params
+	params.NodeSpacing, params.LayerSpacing, params.BrandesKoepfLayout = nodeSpacing, layerSpacing, bk
+	p4 := map[string]processor.P{"sink": PositioningSinkColoring, "valign": PositioningVAlign, "packright": PositioningPackRight,
+		"ns": PositioningNetworkSimplex, "bk": PositioningBrandesKoepf}[alg]
+	p5 := map[string]processor.P{"straight": EdgeRoutingStraight, "polyline": EdgeRoutingPolyline, "ortho": EdgeRoutingOrtho}[route]
+	if p4 == nil || p5 == nil {
+		panic("VerifRoute: unknown algorithm " + alg + " / " + route)
+	}
+	p4.Process(G, params)
+	p5.Process(G, params)
+	after = x.snap("after", 0, G)
+	return before, after
+}
+
+type verifCrossingsMonitor struct{ vals []int }
+
+func (m *verifCrossingsMonitor) Log(phase int, alg, key string, val any) {
+	if x, ok := val.(int); ok && phase == 3 && key == "crossings" {
+		m.vals = append(m.vals, x)
+	}
+}
+
+// VerifOrder runs the ordering phase (phase 3, default options) on a synthetic layering: the graph populated from
+// source, every node in the given layer, the nodes of a layer ordered as in the node list. It returns the state
+// before and after and the crossing numbers the phase reported through the monitor.
+func VerifOrder(source graph.Source, layers map[string]int) (before, after VerifSnap, reported []int) {
+	G := from(source)
+	size := 0
+	for _, n := range G.Nodes {
+		n.Layer = layers[n.ID]
+		size = max(size, n.Layer+1)
+	}
+	G.Layers = make([]*ig.Layer, size)
+	for i := range G.Layers {
+		G.Layers[i] = &ig.Layer{Index: i}
+	}
+	for _, n := range G.Nodes {
+		l := G.Layers[n.Layer]
+		l.Nodes = append(l.Nodes, n)
+	}
+	x := &verifIndex{nidx: map[*ig.Node]int{}, eidx: map[*ig.Edge]int{}}
+	before = x.snap("before", 0, G)
+	mon := &verifCrossingsMonitor{}
+	imonitor.Set(mon)
+	defer imonitor.Reset()
+	defaultOptions.p3.Process(G, defaultOptions.params)
+	after = x.snap("after", 0, G)
+	return before, after, mon.vals
+}
